@@ -101,7 +101,17 @@ macro_rules! wiring_validated {
             let h = <$ty>::from(a);
             let (cards, distinct, _b, _m) = spec_valid(a);
             let valid = cards && distinct;
-            wiring::expect(&a, fv, fh);
+            // priming: the validated entry point on another arbitrary array first (a validation memo would show)
+            let a0: [u32; $n] = sym::words::<$n>();
+            let (c0, d0, _b0, _m0) = spec_valid(a0);
+            #[cfg(not(kani))]
+            sym::assume(!(c0 && d0) || true);
+            wiring::begin(2);
+            wiring::expect_k(0, &a, fv, fh);
+            wiring::expect_k(1, &a0, sym::u16(), fh);
+            let _ = <$ty>::from(a0).hand_rank_value_validated();
+            let _ = (c0, d0);
+            unsafe { wiring::CALLS = 0 };
             // the validated entry point is total on arbitrary words
             let vv = if $five { ckc_rs::evaluate::five_cards([a[0], a[1], a[2], a[3], a[4]]) } else { h.hand_rank_value_validated() };
             if !valid {
@@ -227,6 +237,25 @@ pub fn nasty_family<const N: usize>(validated: impl Fn([u32; N]) -> u16) {
     pats.push(flagged);
     pats.push(nearmiss);
     pats.push(suitless);
+    // valid hands at the extremes of the value range must rank non-zero without panicking (debug assertions included)
+    let worst = [word(6, 0), word(5, 1), word(3, 2), word(2, 3), word(1, 0), word(0, 1), word(7, 2)]; // 8 7 5 4 3 2 (+9)
+    let mut wv = [0u32; N];
+    let mut rv = [0u32; N];
+    for i in 0..N {
+        wv[i] = worst[i];
+        rv[i] = royal[i];
+    }
+    for v in [wv, rv] {
+        let mut q = v;
+        q.reverse();
+        for w in [v, q] {
+            if validated(w) == 0 {
+                crate::sym::native::note(format!("validated ranking of the valid hand {:x?} is 0", w));
+                crate::sym::native::fail("extreme-hand family on the real code: a valid hand ranks 0");
+                return;
+            }
+        }
+    }
     for p in pats {
         let mut q = p;
         q.reverse();
